@@ -1,7 +1,8 @@
 /-
   Y0.Model.IdcStar — executable model of `src/y0/algorithm/identify/idc_star.py` (IDC*) on top of the ID* model,
   the counterfactual-graph model and the d-separation model of the `sep` family (`MG.dSeparated`, the code after
-  `fix:` 387f69f).
+  `fix:` 387f69f).  Models idc_star.py after `fix:` b76144c (re-associated keys sorted) and `fix:` 1834c39 (the rule-2 test
+  of line 4 conditions on the other conditions: `rule2Applies … others`, `firstExchangeableIn`).
 
   Order parameters (Python iterates over sets there; all theorems hold for every choice, the harness drives the real
   code through the same orders):
@@ -56,9 +57,12 @@ def allSeparated (g : MG Var) (cond : Var) (blocked : List Var) : List Var → E
     let s ← g.dSeparated o cond (blocked.filter (fun n => n ≠ o && n ≠ cond))
     if s then allSeparated g cond blocked os else pure false
 
-/-- `cf_rule_2_of_do_calculus_applies(cf_graph, outcomes, condition)` -/
-def rule2Applies (cf : MG Var) (outcomes : List Var) (cond : Var) : Except Err Bool :=
-  let blocked := cf.nodes.filter (fun n => !isNotSelfIntervened n)
+/-- `cf_rule_2_of_do_calculus_applies(cf_graph, outcomes, condition, other_conditions=others)`: since `fix:` "the rule-2 test of
+IDC* conditions on the other conditions" the conditioning set is `{self-intervened nodes} | set(other_conditions)` (before, the
+self-intervened nodes only: a condition was exchanged although conditioning on another condition -- e.g. a collider -- opens a
+back-door path).  A set in Python; the d-separation model does not depend on order or repetitions of the list. -/
+def rule2Applies (cf : MG Var) (outcomes : List Var) (cond : Var) (others : List Var) : Except Err Bool :=
+  let blocked := others ++ cf.nodes.filter (fun n => !isNotSelfIntervened n)
   allSeparated (cf.removeOutEdges [cond]) cond blocked outcomes
 
 /-! ### exchanging a condition for an intervention -/
@@ -131,11 +135,17 @@ def line1 (r : Except Err Expr) : Except Err Unit :=
   | .error .unidentifiable => .ok ()
   | .error e => .error e
 
-/-- the `for condition in new_conditions` loop: the first condition to which rule 2 applies -/
-def firstExchangeable (cf : MG Var) (outcomes : List Var) : List Var → Except Err (Option Var)
+/-- the `for condition in new_conditions` loop over the remaining keys `cs` of the dict whose keys are `all`: the first condition
+to which rule 2 applies, GIVEN the other conditions `set(new_conditions) - {condition}` -/
+def firstExchangeableIn (cf : MG Var) (outcomes all : List Var) : List Var → Except Err (Option Var)
   | [] => .ok none
   | c :: cs => do
-    if ← rule2Applies cf outcomes c then pure (some c) else firstExchangeable cf outcomes cs
+    if ← rule2Applies cf outcomes c (all.filter (fun k => k ≠ c)) then pure (some c)
+    else firstExchangeableIn cf outcomes all cs
+
+/-- the `for condition in new_conditions` loop: the first condition to which rule 2 applies -/
+def firstExchangeable (cf : MG Var) (outcomes conds : List Var) : Except Err (Option Var) :=
+  firstExchangeableIn cf outcomes conds conds
 
 def idcStarFuel (ordf : List World → List World) (dordf kordf : List Var → List Var) (G : MG Name) :
     Nat → Event → Event → Except Err Expr
